@@ -461,11 +461,14 @@ static int do_new (int n, char **w)
  *                                       exactly sized buffer (ASan sees any read past the packet)
  *   turn from <peer> <hex>              one datagram whose source is peer <peer> (not the server)
  *   turn reply <cp|cb> <seq> <ok|e401|e438|e403|e400>   answer to the seq-th CreatePermission / ChannelBind request
+ *   turn advance <ms>                   the virtual clock (harness/common.h) advances, the socket's main context runs
+ *                                       (request retransmissions / time-outs; keep a session below 200 s: the
+ *                                       240 s / 540 s refresh timers are outside the model)
  * peers: 0 = 10.1.1.1:1111  1 = 10.1.1.2:2222  2 = [2001:db8::2]:3333  3 = 10.1.1.1:1112
  * Output: ret <r> up [<src>:<hex>,...] down [<entry>,...] state ch=[p:chan,..] cur=<p:chan|-> pend=[p,..] perm=[..] sent=[..] q=[p:n,..] frag=<n>
  *   src = peer index, `s` for the server address, `?` otherwise
  *   down entries: raw hex with the STUN transaction id zeroed; CreatePermission / ChannelBind requests are
- *   printed decoded: CP(<seq>,<peer>,<auth>) / CB(<seq>,<chan>,<peer>,<auth>)                                   */
+ *   printed decoded: CP(<seq>,<peer>,<auth>) / CB(<seq>,<chan>,<peer>,<auth>), retransmissions RCP(<seq>) / RCB(<seq>)                                   */
 static NiceSocket *tsock, *dbase;
 static NiceAddress tserver, tlocal, tpeers[4];
 static GQueue *dq;              /* pending datagrams: GBytes */
@@ -503,6 +506,14 @@ static void tdown (const uint8_t *b0, size_t n)
       nice_address_init (&pa);
       if (stun_message_find_xor_addr (&m, STUN_ATTRIBUTE_XOR_PEER_ADDRESS, &sa.st, &sl) == STUN_MESSAGE_RETURN_SUCCESS)
         nice_address_set_from_sockaddr (&pa, &sa.a);
+      {   /* a retransmission carries a transaction id already seen */
+        int k, nk = type == 0x0008 ? cp_n : cb_n; uint8_t (*tx)[12] = type == 0x0008 ? cp_tx : cb_tx;
+        for (k = 0; k < nk && k < 512; k++) if (!memcmp (tx[k], b + off + 8, 12)) {
+          g_string_append_printf (e, "%s(%d)", type == 0x0008 ? "RCP" : "RCB", k);
+          if (down_n++) g_string_append_c (down_s, ',');
+          g_string_append (down_s, e->str); g_string_free (e, TRUE); g_free (b); return;
+        }
+      }
       if (type == 0x0008) { if (cp_n < 512) { memcpy (cp_tx[cp_n], b + off + 8, 12); cp_req[cp_n] = g_bytes_new (b + off, n - off); }
         g_string_append_printf (e, "CP(%d,%d,%d)", cp_n++, peer_index (&pa), auth); }
       else { stun_message_find32 (&m, STUN_ATTRIBUTE_CHANNEL_NUMBER, &ch); if (cb_n < 512) { memcpy (cb_tx[cb_n], b + off + 8, 12); cb_req[cb_n] = g_bytes_new (b + off, n - off); }
@@ -521,6 +532,16 @@ static void tdown (const uint8_t *b0, size_t n)
       }
     }
     memset (b + off + 8, 0, 12);
+  }
+  else if ((tcompat == NICE_TURN_SOCKET_COMPATIBILITY_GOOGLE || tcompat == NICE_TURN_SOCKET_COMPATIBILITY_MSN ||
+            tcompat == NICE_TURN_SOCKET_COMPATIBILITY_OC2007) && n - off >= 20 && (b[off] & 0xC0) == 0 &&
+           (size_t) ((b[off + 2] << 8 | b[off + 3]) + 20) == n - off) {
+    /* RFC 3489 style message: 16-byte transaction id, no cookie; MESSAGE-INTEGRITY depends on it */
+    size_t a = off + 20;
+    memset (b + off + 4, 0, 16);
+    while (a + 4 <= n) { unsigned at = b[a] << 8 | b[a + 1], al = b[a + 2] << 8 | b[a + 3];
+      if (at == 0x0008 && al == 20 && a + 24 <= n) memset (b + a + 4, 0, 20);
+      a += 4 + (tcompat == NICE_TURN_SOCKET_COMPATIBILITY_OC2007 ? al : ((al + 3) & ~3u)); }
   }
   if (down_n++) g_string_append_c (down_s, ',');
   g_string_append (down_s, e->str);
@@ -641,6 +662,7 @@ static void turn_op (int n, char **w)
     if (c < 0) { puts ("bad-op"); return; }
     teardown (); turn_teardown ();
     layer = L_TURN; tcompat = c; dreliable = atoi (w[3]);
+    verif_now_us = 0;
     nice_address_init (&tserver); nice_address_set_from_string (&tserver, "10.9.9.9"); nice_address_set_port (&tserver, 3478);
     nice_address_init (&tlocal); nice_address_set_from_string (&tlocal, "10.0.0.1"); nice_address_set_port (&tlocal, 40000);
     for (i = 0; i < 4; i++) { nice_address_init (&tpeers[i]); nice_address_set_from_string (&tpeers[i], pa[i]); nice_address_set_port (&tpeers[i], pp[i]); }
@@ -662,6 +684,11 @@ static void turn_op (int n, char **w)
     add_ret (r);
     for (i = 0; i < nb; i++) free ((void *) v[i].buffer);
     turn_state ();
+  } else if (!strcmp (w[1], "advance") && n == 3) {
+    int it = 0;
+    verif_now_us += strtoull (w[2], NULL, 10) * 1000;
+    while (g_main_context_iteration (ctx, FALSE) && ++it < 10000);
+    add_ret (0); turn_state ();
   } else if (!strcmp (w[1], "setpeer") && n == 3) {
     int pi = atoi (w[2]); if (pi < 0 || pi > 3) { puts ("bad-op"); return; }
     add_ret (nice_udp_turn_socket_set_peer (tsock, &tpeers[pi])); turn_state ();
